@@ -274,7 +274,7 @@ def extend_schema(
                 builder.build_type(op_def.type)
             )
 
-    schema = Schema(
+    extended = Schema(
         query_type=operation_types["query"],
         mutation_type=operation_types["mutation"],
         subscription_type=operation_types["subscription"],
@@ -282,6 +282,8 @@ def extend_schema(
         directives=directives,
         nodes=(schema.nodes or []) + (schema_exts or []),  # type: ignore
     )
+    extended.default_resolver = schema.default_resolver
+    schema = extended
 
     if schema_directives is not None:
         schema = apply_schema_directives(schema, schema_directives)
